@@ -373,9 +373,16 @@ func (cs *Contracts) parseFile(fname, pkg, prefix string) {
 				cur.Updates = append(cur.Updates, c)
 			}
 		case "invariant", "decreases":
-			// invariant N "header text" EXPR
+			// invariant [in CALLEE] N "header text" EXPR
 			var nn int
 			r := rest
+			if strings.HasPrefix(r, "in ") {
+				f := strings.Fields(r)
+				if len(f) >= 2 {
+					c.Site = f[1] // callee whose loop is meant (inlined into this function)
+					r = strings.TrimSpace(strings.TrimPrefix(strings.TrimSpace(r[3:]), f[1]))
+				}
+			}
 			if _, err := fmt.Sscanf(r, "%d", &nn); err != nil {
 				cs.errf(fname, l.line, "%s needs loop ordinal", kind)
 				continue
